@@ -327,6 +327,12 @@ def relabel(v: AVal, org) -> AVal:
     return replace(fresh(v), org=frozenset(org))
 
 
+def is_fresh_empty(v: AVal) -> bool:
+    """A container created empty in the analysed activation and never extended."""
+    return (not v.is_bottom and bool(v.types) and v.types <= {"list", "tuple", "dict", "set"} and v.elem is None and v.tup is None
+            and v.key is None and not v.is_json and not v.org and v.taint == 0 and not v.nonempty and v.const is None)
+
+
 def elem_of(v: AVal) -> AVal:
     """Abstract element obtained by iterating / subscripting / .values() of v."""
     parts = []
